@@ -3,6 +3,7 @@ package wire
 import (
 	"context"
 	"sync"
+	"sync/atomic"
 	"time"
 
 	"github.com/aptpod/iscp-go/errors"
@@ -131,9 +132,14 @@ func Connect(c *ClientConnConfig) (*ClientConn, error) {
 	}
 
 	ctx, cancel := context.WithCancel(context.Background())
+	gate := &disconnectGate{}
+	var unreliable EncodingTransport
+	if c.UnreliableTransport != nil {
+		unreliable = &gatedTransport{EncodingTransport: c.UnreliableTransport, gate: gate}
+	}
 	conn := &ClientConn{
-		transport:                       c.Transport,
-		unreliableTransport:             c.UnreliableTransport,
+		transport:                       &gatedTransport{EncodingTransport: c.Transport, gate: gate},
+		unreliableTransport:             unreliable,
 		idGenerator:                     newRequestIDGeneratorForClient(),
 		ctx:                             ctx,
 		cancel:                          cancel,
@@ -382,8 +388,55 @@ func (c *ClientConn) Close() error {
 }
 
 // SendDisconnectは、Disconnectメッセージを送信します。
+//
+// The Disconnect is the last message of the connection: writes in progress are waited for (as long as ctx allows), later ones
+// are refused; only keepalive messages may still follow it.
 func (c *ClientConn) SendDisconnect(ctx context.Context, msg *message.Disconnect) error {
+	if g, ok := c.transport.(*gatedTransport); ok {
+		if err := g.gate.shut(ctx); err != nil {
+			return err
+		}
+		return g.EncodingTransport.Write(msg)
+	}
 	return c.transport.Write(msg)
+}
+
+// disconnectGate makes the Disconnect the last message the client sends: every other write passes through it and is
+// refused once the gate is shut.
+type disconnectGate struct {
+	isShut   atomic.Bool
+	inFlight atomic.Int64
+}
+
+// shut closes the gate and waits until the writes that passed it before have returned.
+func (g *disconnectGate) shut(ctx context.Context) error {
+	g.isShut.Store(true)
+	for g.inFlight.Load() > 0 {
+		select {
+		case <-ctx.Done():
+			return ctx.Err()
+		case <-time.After(200 * time.Microsecond):
+		}
+	}
+	return nil
+}
+
+type gatedTransport struct {
+	EncodingTransport
+	gate *disconnectGate
+}
+
+func (t *gatedTransport) Write(m message.Message) error {
+	switch m.(type) {
+	case *message.Ping, *message.Pong:
+		return t.EncodingTransport.Write(m)
+	}
+	t.gate.inFlight.Add(1)
+	defer t.gate.inFlight.Add(-1)
+	if t.gate.isShut.Load() {
+		return errors.ErrConnectionClosed
+	}
+	return t.EncodingTransport.Write(m)
 }
 
 // SendUpstreamMetadataは、UpstreamMetadataを送信します。
